@@ -55,3 +55,15 @@ Check load_state_keeps_errors_and_warnings :
     ss_errors (w_state (snd (load_state sp ssw w j))) = ss_errors (w_state w) /\
     ss_warnings (w_state (snd (load_state sp ssw w j))) = ss_warnings (w_state w).
 Print Assumptions load_state_keeps_errors_and_warnings.
+
+(* ---------------- "an error always stops the story" ---------------- *)
+(* with an error on record (not yet handed to a handler, or no handler) the story cannot continue:
+   can_continue answers false and leaves the world as it is *)
+Theorem error_stops_the_story : forall (w : world),
+  ss_errors (w_state w) <> [] ->
+  forall o w', m_can_continue w = (o, w') -> (forall s, o <> OPanic s) -> o = OOk false /\ w' = w.
+Proof. exact DeliveryProofs.error_cannot_continue. Qed.
+Check error_stops_the_story : forall (w : world),
+  ss_errors (w_state w) <> [] ->
+  forall o w', m_can_continue w = (o, w') -> (forall s, o <> OPanic s) -> o = OOk false /\ w' = w.
+Print Assumptions error_stops_the_story.
